@@ -105,3 +105,51 @@ def scale_by_count(y, *, n):
     # `n` is a (possibly symbolic) dimension handed in by value: no input of this function carries it
     import jax.numpy as jnp
     return y * jnp.arange(3, dtype=y.dtype) * n
+
+
+@onnx_function
+def batch_cond_then_zeros(x):
+    """a cond whose branches reduce the batch axis away, then a use of the batch size in the function body"""
+    s = jax.lax.cond(jnp.sum(x) > 0.0, lambda a: a.max(), lambda a: a.min(), x)
+    return jnp.zeros((x.shape[0], 2), dtype=x.dtype) + s
+
+
+@onnx_function
+def batch_while_then_broadcast(x):
+    s = jax.lax.while_loop(lambda c: c[0] < 2, lambda c: (c[0] + 1, c[1] + x.sum()), (jnp.int32(0), jnp.float32(0.0)))[1]
+    return jnp.broadcast_to(s, (x.shape[0],))
+
+
+# ---- targets whose keyword defaults are not None (C19: an explicit None must not be treated as "not given")
+@onnx_function
+def total(x, axis=-1):
+    return jnp.sum(x, axis=axis)
+
+
+@onnx_function
+def bounded(x, lo=0.0, hi=1.0):
+    return jnp.clip(x, lo, hi)
+
+
+@onnx_function
+def scaled(x, scale=None, flip=False):
+    y = x + 1.0 if scale is None else x * scale
+    return -y if flip else y
+
+
+@onnx_function
+class Affine(nnx.Module):
+    def __call__(self, x, shift=1.0):
+        return x * 2.0 + (0.0 if shift is None else shift)
+
+
+# ---- two tensor arguments with dynamic extents, dimension arithmetic on both inside the body (C04)
+@onnx_function
+def outer_sum(u, v):
+    return jnp.zeros((u.shape[0], v.shape[0]), dtype=u.dtype) + u.sum(axis=1)[:, None] + v.sum(axis=1)[None, :]
+
+
+@onnx_function
+def index_grid(u, v):
+    shape = (u.shape[0], v.shape[0])
+    return jax.lax.broadcasted_iota(jnp.float32, shape, 1) * 2.0 + jax.lax.broadcasted_iota(jnp.float32, shape, 0) + u.sum() - v.sum()
